@@ -424,6 +424,52 @@ def signature(meta, dev):
     return 'C16|%s|where=%s|dev=%s|mro=%s' % (a, meta.get('where', '-'), dev, meta['mro'])
 
 
+# ---- hierarchies with BUILT-IN classes among the bases (first, second, third position; through a user class): isinstance against
+# every ancestor incl. the built-in chain (object, BaseException, Exception, LookupError, ...), attribute lookup along the merged MRO.
+BUILTIN_MIX = """class M:
+    tag = "M"
+    def who(self):
+        return "M.who"
+class N:
+    tag = "N"
+    def other(self):
+        return "N.other"
+TARGETS = [("object", object), ("BaseException", BaseException), ("Exception", Exception), ("ValueError", ValueError), ("LookupError", LookupError), ("KeyError", KeyError),
+           ("ArithmeticError", ArithmeticError), ("int", int), ("str", str), ("list", list), ("dict", dict), ("tuple", tuple), ("M", M), ("N", N)]
+def report(name, cls):
+    try:
+        o = cls()
+    except Exception:
+        print(name, "cannot instantiate")
+        return
+    row = []
+    for tn, t in TARGETS + EXTRA:
+        row.append(tn + "=" + ("1" if isinstance(o, t) else "0"))
+    print(name, " ".join(row))
+    for attr in ("tag", "who", "other"):
+        try:
+            v = getattr(o, attr)
+            print(name, attr, v() if attr != "tag" else v)
+        except AttributeError:
+            print(name, attr, "AttributeError")
+EXTRA = []
+"""
+BUILTIN_BASES = ['ValueError', 'KeyError', 'Exception', 'BaseException', 'LookupError', 'int', 'str', 'list', 'dict', 'tuple', 'object']
+
+
+def builtin_mix_programs():
+    out = []
+    for b in BUILTIN_BASES:
+        forms = [('first', 'class A(%s, M):\n    pass\n' % b), ('second', 'class A(M, %s):\n    pass\n' % b), ('third', 'class A(M, N, %s):\n    pass\n' % b),
+                 ('middle', 'class A(M, %s, N):\n    pass\n' % b), ('only', 'class A(%s):\n    pass\n' % b)]
+        if b == 'object':
+            forms = forms[1:3] + forms[4:]
+        for pos, cd in forms:
+            src = BUILTIN_MIX + cd + 'class B(A):\n    pass\nclass C(N, B):\n    tag = "C"\nEXTRA = [("A", A), ("B", B), ("C", C)]\nreport("A", A)\nreport("B", B)\nreport("C", C)\n'
+            out.append({'id': 'bmix-%s-%s' % (b, pos), 'src': src, 'base': b, 'pos': pos})
+    return out
+
+
 def run(tier, rep):
     r = rng(PID, 'gen')
     extra = {'oracle_disagreement': 0, 'programs': 0, 'hierarchies': 0, 'inconsistent_hierarchies': 0, 'distinct_mros': 0,
@@ -539,6 +585,40 @@ def run(tier, rep):
             if got is None or dev == 'misaligned' or a.startswith('class-'):
                 stop = True
             if stop:
+                break
+    # ---- built-in classes among the bases ----------------------------------------------------------------------
+    bm = builtin_mix_programs()
+    bexp = oracle_exec(bm)
+    bgot, _ = run_vrun('exec', bm)
+    extra['builtin_mix_programs'] = 0
+    extra['builtin_mix_unsupported'] = {}
+    for c in bm:
+        e, g = bexp.get(c['id']) or {}, bgot.get(c['id'])
+        if g is None or e.get('oracle_failed'):
+            rep.inconc('builtin-mix %s: no result' % c['id'])
+            continue
+        if e.get('exc') or e.get('cerr'):
+            continue                      # CPython itself rejects the hierarchy (instance lay-out conflict): not part of the property
+        if g.get('exc') and not g.get('out'):
+            # the class statement itself fails in gpython: a built-in type that cannot be subclassed there is a missing feature, not a lookup defect
+            extra['builtin_mix_unsupported'][c['base']] = str(g.get('exc'))
+            continue
+        rep.evaluations += 1
+        extra['builtin_mix_programs'] += 1
+        nontriv.add(('bmix', c['base'], c['pos']))
+        if g.get('panic') or g.get('crash'):
+            rep.violation('C16|builtin-base|base=%s|pos=%s|panic' % (c['base'], c['pos']), {'case': {'id': c['id'], 'src': c['src']}, 'got': {k: short(v, 800) for k, v in g.items()}})
+            continue
+        el, gl = (e.get('out') or '').split('\n'), (g.get('out') or '').split('\n')
+        for i, x in enumerate(el):
+            y = gl[i] if i < len(gl) else None
+            if x != y:
+                kind = 'isinstance' if '=' in x else 'lookup'
+                detail = ''
+                if kind == 'isinstance' and y and '=' in y:
+                    detail = ','.join(a.split('=')[0] for a, b_ in zip(x.split(' ')[1:], y.split(' ')[1:]) if a != b_)[:60]
+                rep.violation('C16|builtin-base|%s|base=%s|pos=%s|class=%s|%s' % (kind, c['base'], c['pos'], x.split(' ')[0], detail or ('escaped:%s' % g.get('exc') if y is None and g.get('exc') else 'differs')),
+                              {'case': {'id': c['id'], 'src': c['src']}, 'expected': x, 'got': y, 'exc': g.get('exc'), 'excmsg': g.get('excmsg')})
                 break
     rep.nontrivial = nontriv
     rep.samples = samples or [{'program_excerpt': cases[-10]['src'][:400]}]
